@@ -190,6 +190,14 @@ pub fn run(tier: Tier, seed: u64) -> i32 {
                 }
             }
             variants.push(("reversed-witness-labels", v));
+            // the same constraint system against the other built-in scalar
+            // table (flag cleared: every constant spelled out), and back
+            if let Some(v) = cc0.with_flag(!cc0.hades) {
+                if let Some(back) = v.with_flag(cc0.hades) {
+                    variants.push(("built-in-table-flag-flipped-twice", back));
+                }
+                variants.push(("built-in-table-flag-flipped", v));
+            }
             for (name, v) in variants {
                 let r = compile_compressed(&pp, &label, &v.to_compressed());
                 ev.case(&json!({"part": "relabelled", "variant": name, "ci": ci, "result": classify(&r)}), true);
